@@ -417,25 +417,6 @@ theorem local_wire_adds_value_link_only (s s' : St) (hs : SInv s) (node off : Na
 
 /-! ### the whole argument list of `_wire_up` -/
 
-theorem grow_nodeParent (s s' : St) (G : StoreGrow s s') (i : Nat) : nodeParent s' i = nodeParent s i := by
-  unfold nodeParent
-  cases hg : Store.getNode s i with
-  | ok d =>
-    obtain ⟨d', e1, g⟩ := G.fwd i d hg
-    simp [e1, g.parent]
-  | error e =>
-    cases hg1 : Store.getNode s' i with
-    | ok d' =>
-      obtain ⟨d, hd⟩ := G.bwd i d' hg1
-      rw [hg] at hd; cases hd
-    | error e' =>
-      rw [getNode_error s i e hg, getNode_error s' i e' hg1]
-
-theorem grow_anc (s s' : St) (G : StoreGrow s s') (a b : Nat) (h : Anc s' a b) : Anc s a b := by
-  induction h with
-  | refl a => exact .refl a
-  | step a p b hp _ ih => exact .step a p b (by rw [← grow_nodeParent s s' G a]; exact hp) ih
-
 /-- the wiring step only grows port counts, and keeps the store invariant -/
 theorem wire_up_port_grow (s s' : St) (hs : SInv s) (node off : Nat) (w : Wire) (t : Ty) (hw : -1 ≤ w.2)
     (h : wireUpPortBase s node off w = .ok (s', t)) : StoreGrow s s' ∧ SInv s' := by
@@ -541,6 +522,143 @@ theorem wire_up_ports_links (node : Nat) : ∀ (ws : List Wire) (s s' : St) (i :
           · rw [← grow_nodeParent s s1 g1]; simpa using f1
           · rw [← grow_nodeParent s s1 g1]; exact f3
           · simpa using f4
+
+/-! ### `_wire_up`: wiring followed by the completion of the operation -/
+
+/-- **Edge locality for `_wire_up(node, wires)`** as called by `add_op`, `add`, `call`, `load`, `set_outputs`
+    and the nested-builder constructors of every non-block dataflow builder: when it returns, no earlier link is
+    lost, every wire is linked to the input port at its position, every non-local wire has its state-order link
+    from its source to the sibling ancestor of `node`. -/
+theorem wire_up_links (s s' : St) (hs : SInv s) (node : Nat) (ws : List Wire) (tys : List Ty)
+    (hw : ∀ w ∈ ws, -1 ≤ w.2) (h : wireUp s none node ws = .ok (s', tys)) :
+    (∀ l ∈ linksList s, l ∈ linksList s') ∧
+    ∀ k (hk : k < ws.length), (ws[k], (node, (k : Int))) ∈ linksList s' ∧
+      ∃ anc p, nodeParent s ws[k].1 = .ok (some p) ∧ Anc s node anc ∧ nodeParent s anc = .ok (some p) ∧
+        (anc ≠ node → ((ws[k].1, (-1 : Int)), (anc, (-1 : Int))) ∈ linksList s') := by
+  unfold wireUp at h
+  cases h1 : wireUpPorts none node s 0 ws with
+  | error e => simp [h1] at h
+  | ok r =>
+    obtain ⟨s1, tys1⟩ := r
+    simp only [h1] at h
+    cases h2 : completeOp s1 node tys1 with
+    | error e => simp [h2] at h
+    | ok s2 =>
+      simp only [h2] at h
+      injection h with h; injection h with e1 e2; subst e1
+      obtain ⟨_, _, hm, hr⟩ := wire_up_ports_links node ws s s1 0 tys1 hs hw h1
+      rw [completeOp_links s1 s2 node tys1 h2]
+      refine ⟨hm, fun k hk => ?_⟩
+      simpa using hr k hk
+
+/-! ### inside a basic block: dominator edges -/
+
+/-- **Wiring inside a basic block**: when `Block._wire_up_port` returns, either the plain wiring succeeded
+    (sibling ancestor found: value link + order link as above), or there is no sibling ancestor, the enclosing
+    CFG node is the parent of the source or an ancestor of that parent (the source sits in another block of the
+    same CFG, at any depth), and exactly the value link was added — a dominator edge carries no order edge. -/
+theorem block_wire_links (s s' : St) (hs : SInv s) (blockNode node off : Nat) (w : Wire) (t : Ty)
+    (h : wireUpPortBlock s blockNode node off w = .ok (s', t)) :
+    (∃ t', wireUpPortBase s node off w = .ok (s', t')) ∨
+    (ancestralSibling s w.1 node = .ok none ∧
+      ∃ cfg p, nodeParent s blockNode = .ok (some cfg) ∧ nodeParent s w.1 = .ok (some p) ∧ Anc s p cfg ∧
+        linksList s' = linksList s ++ [(w, (node, (off : Int)))]) := by
+  unfold wireUpPortBlock at h
+  cases hb : nodeParent s blockNode with
+  | error e => simp [hb] at h
+  | ok ob =>
+    cases ob with
+    | none => simp [hb] at h
+    | some cfg =>
+      simp only [hb] at h
+      cases hsp : nodeParent s w.1 with
+      | error e => simp [hsp] at h
+      | ok sp =>
+        simp only [hsp] at h
+        cases hw : wireUpPortBase s node off w with
+        | ok r =>
+          obtain ⟨s1, t1⟩ := r
+          simp only [hw] at h
+          cases hg : getDataflowType s1 w with
+          | error e => simp [hg] at h
+          | ok t2 =>
+            simp only [hg] at h
+            injection h with h; injection h with h1 h2; subst h1
+            exact .inl ⟨t1, rfl⟩
+        | error e =>
+          by_cases hn : e = .noSiblingAncestor
+          · subst hn
+            simp only [hw] at h
+            right
+            refine ⟨(C13.no_sibling_ancestor_iff s node off w).mp hw, ?_⟩
+            cases hc : inCfgLoop s cfg (s.nodes.length + 1) sp with
+            | error e => simp [hc] at h
+            | ok u =>
+              simp only [hc] at h
+              obtain ⟨p, e1, e2⟩ := C13.inCfgLoop_ok_spec s cfg _ sp hc
+              subst e1
+              cases hl : Store.addLink s w (node, (off : Int)) with
+              | error e => simp [hl, liftS] at h
+              | ok s1 =>
+                simp only [hl, liftS] at h
+                cases hg : getDataflowType s1 w with
+                | error e => simp [hg] at h
+                | ok t2 =>
+                  simp only [hg] at h
+                  injection h with h; injection h with h1 h2; subst h1
+                  exact ⟨cfg, p, rfl, rfl, e2, (addLink_links s s1 hs.links _ _ hl).1⟩
+          · exfalso
+            rw [hw] at h
+            cases e <;> simp_all
+
+/-! ### Input and Output are the first two children of every dataflow region the builders open -/
+
+/-- **`_init_io_nodes`**: the Input node (carrying the container's input row, with that many output ports) and
+    the Output node are appended, in this order, to the children of the container; nothing else changes in the
+    hierarchy and no link is added.  For a container that was just created (`new_nested`, `__init__`) the
+    children list was empty, so they are its first and second child (rules R1.first_child / R1.second_child /
+    R2.input_row of the validity specification). -/
+theorem init_io_children (s s' : St) (hs : SInv s) (parentOp : Op) (p : Nat) (dp : NodeData Op Serial.Meta)
+    (hp : getNode s p = .ok dp) (i o : Store.Handle) (h : initIO s parentOp p = .ok (s', i, o)) :
+    ∃ ins dp' di dO, Op.inputs parentOp = .ok ins ∧
+      getNode s' p = .ok dp' ∧ childIdxs dp' = childIdxs dp ++ [i.1, o.1] ∧ dp'.parent = dp.parent ∧
+      getNode s' i.1 = .ok di ∧ di.op = .input ins ∧ di.parent = some p ∧ i.2 = some ins.length ∧
+      getNode s' o.1 = .ok dO ∧ dO.op = .output none ∧ dO.parent = some p ∧
+      linksList s' = linksList s ∧ SInv s' := by
+  unfold initIO at h
+  cases hi : Op.inputs parentOp with
+  | error e => simp [hi] at h
+  | ok ins =>
+    simp only [hi] at h
+    cases h1 : Store.addNode s (.input ins) (some p) (some ins.length) [] with
+    | error e => simp [h1, Build.liftS] at h
+    | ok r1 =>
+      obtain ⟨s1, i1⟩ := r1
+      simp only [h1, Build.liftS] at h
+      cases h2 : Store.addNode s1 (.output none) (some p) none [] with
+      | error e => simp [h2] at h
+      | ok r2 =>
+        obtain ⟨s2, o1⟩ := r2
+        simp only [h2] at h
+        injection h with h
+        simp only [Prod.mk.injEq] at h
+        obtain ⟨e1, e2, e3⟩ := h
+        subst e1; subst e2; subst e3
+        have hs1 := sinv_addNode s s1 hs _ _ _ _ _ h1
+        have hs2 := sinv_addNode s1 s2 hs1 _ _ _ _ _ h2
+        obtain ⟨fr1, ⟨d1, g1, o1a, p1a, _, _⟩, l1, _⟩ := C04.add_node_spec s s1 hs _ _ _ _ _ h1
+        obtain ⟨fr2, ⟨d2, g2, o2a, p2a, _, _⟩, l2, k2⟩ := C04.add_node_spec s1 s2 hs1 _ _ _ _ _ h2
+        have hip : p ≠ i1 := fun e => fr1 dp (e ▸ hp)
+        obtain ⟨dp1, gp1, pp1, cp1⟩ := C04.add_node_children s s1 hs _ _ _ _ _ h1 p dp hip hp
+        have hop : p ≠ o1 := fun e => fr2 dp1 (e ▸ gp1)
+        obtain ⟨dp2, gp2, pp2, cp2⟩ := C04.add_node_children s1 s2 hs1 _ _ _ _ _ h2 p dp1 hop gp1
+        have hio : i1 ≠ o1 := fun e => fr2 d1 (e ▸ g1)
+        obtain ⟨di, gi, si, _, _⟩ := k2 i1 d1 hio g1
+        refine ⟨ins, dp2, di, d2, rfl, gp2, ?_, pp2.trans pp1, gi, si.op.trans o1a, ?_, rfl, g2, o2a, ?_,
+          l2.trans l1, hs2⟩
+        · rw [cp2, cp1]; simp
+        · rw [si.parent, p1a]; rfl
+        · rw [p2a]; rfl
 
 /-! ### non-vacuity: a wire from the outer Input into an operation inside a nested DFG -/
 
